@@ -2,7 +2,7 @@
 
 use crate::posmon::{reachable_family, Node, Oracle};
 use crate::real::{self, col, kind, observe, pos};
-use crate::report::Collector;
+use refmodel::report::Collector;
 use chess_movegen::fen::parse_fen;
 use chess_movegen::Board;
 use refmodel::json::obj;
